@@ -555,7 +555,7 @@ func vH_C12_bool(data []byte) {
 	}
 }
 
-func vH_C12_string(data []byte, withBuf bool) {
+func vH_C12_string(data []byte, withBuf bool, second []byte) {
 	// prior target content: a string of nondeterministic length 0..2 and content
 	var v0b [2]byte
 	v0b[0] = vNondetByte("v0a")
@@ -586,6 +586,22 @@ func vH_C12_string(data []byte, withBuf bool) {
 	} else {
 		vAssert(err != nil, "C12.string-error")
 		vAssert(v == v0, "C12.string-error-untouched")
+	}
+	if len(second) > 0 {
+		// a later call with the same target and the same scratch buffer: when it fails (or reads
+		// null) the target must still hold what the first call left in it
+		snap := []byte(v)
+		_, rend2, rok2 := vRefReadString(second, nil)
+		_ = rend2
+		_, err2 := DecodeString(second, &v, bufp)
+		if !rok2 {
+			vReach("C12.string-second-call-no-store")
+			ws2 := vSkipWS(second, 0)
+			if !vRefLiteral(second, ws2, "null") {
+				vAssert(err2 != nil, "C12.string-second-error")
+			}
+			vAssert(v == string(snap), "C12.string-second-untouched")
+		}
 	}
 }
 
